@@ -114,6 +114,7 @@ func followerProfile() Profile {
 	p.PDup, p.PLate, p.PDrop = 0.08, 0.06, 0.05
 	p.HoldSnapshot = 0.4
 	p.MinActions, p.MaxActions = 300, 2500
+	p.PNodeAPI = 0.15 // the real node is driven through raft.Node in some runs (E3 driver inside E2)
 	return p
 }
 
